@@ -327,6 +327,62 @@ func concurrent(args []any) any {
 	return res
 }
 
+// setRoot exercises nested SetRoot calls of the library in a scratch directory.
+func setRoot(dir string) any {
+	os.RemoveAll(dir)
+	must := func(err error) {
+		if err != nil {
+			panic(err)
+		}
+	}
+	must(os.MkdirAll(dir+"/r/a/b", 0o755))
+	must(os.MkdirAll(dir+"/out", 0o755))
+	must(os.WriteFile(dir+"/out/decoy.yaml", []byte("secret: S1\n"), 0o644))
+	must(os.WriteFile(dir+"/r/top.yaml", []byte("top: 1\n"), 0o644))
+	must(os.WriteFile(dir+"/r/a/mid.yaml", []byte("mid: 1\n"), 0o644))
+	must(os.WriteFile(dir+"/r/a/b/in.yaml", []byte("$parent: ../mid\nx: 1\n"), 0o644))
+	must(os.WriteFile(dir+"/r/a/b/up2.yaml", []byte("$parent: ../../top\nx: 1\n"), 0o644))
+	must(os.WriteFile(dir+"/r/a/b/esc.yaml", []byte("$parent: ../../../out/decoy\nx: 1\n"), 0o644))
+	defer os.RemoveAll(dir)
+	cwd, _ := os.Getwd()
+	defer os.Chdir(cwd)
+	must(os.Chdir(dir))
+	res := []any{}
+	try := func(roots []string, file string) string {
+		p, err := bkl.New()
+		must(err)
+		for _, r := range roots {
+			if err := p.SetRoot(r); err != nil {
+				return "setroot-err"
+			}
+		}
+		if err := p.MergeFileLayers(file); err != nil {
+			return "err"
+		}
+		out, err := p.Output("json")
+		if err != nil {
+			return "err"
+		}
+		return string(out)
+	}
+	check := func(name string, got string, wantOK bool) {
+		ok := got != "err" && got != "setroot-err"
+		if ok != wantOK || (ok && bytes.Contains([]byte(got), []byte("S1"))) {
+			res = append(res, name+": "+got)
+		}
+	}
+	check("r then r/a: parent inside", try([]string{"r", "r/a"}, "r/a/b/in.yaml"), true)
+	check("r then r/a: parent above the nested root", try([]string{"r", "r/a"}, "r/a/b/up2.yaml"), false)
+	check("r: parent two up, still inside", try([]string{"r"}, "r/a/b/up2.yaml"), true)
+	check("r then r/a: escape", try([]string{"r", "r/a"}, "r/a/b/esc.yaml"), false)
+	check("r: escape", try([]string{"r"}, "r/a/b/esc.yaml"), false)
+	check("r/a then r (ancestor of current root)", try([]string{"r/a", "r"}, "r/a/b/in.yaml"), false)
+	if len(res) > 0 {
+		return []any{"violation", res}
+	}
+	return []any{"ok", 6}
+}
+
 func yamlParse(args []any) any {
 	r := map[string]any{}
 	for _, a := range args[0].([]any) {
@@ -412,6 +468,8 @@ func runCase(c any) (res any) {
 		return history(l[1:])
 	case "concurrent":
 		return concurrent(l[1:])
+	case "setroot":
+		return setRoot(l[1].(string))
 	case "yaml":
 		return yamlParse(l[1:])
 	case "enc":
